@@ -103,12 +103,12 @@ def schedule_part(ctx):
                 r.live, r.twin, r.outcome, r.twin_outcome = holder['built'], twin, rec.result, twin_outcome
                 ctx.count('calls_compared', compare_with_twin(ctx, r, w))
             k = K + 1 if (name.startswith('P1') and not ctx.quick) else K
-            cap = 1500 if ctx.quick else 60000
+            cap = 120 if ctx.quick else 60000
             runs, complete = S.explore_dfs(make, tg, k, on_run, max_runs=(cap // ctx.nshards + 1) if shard else cap, shard=shard)
             ctx.count('dfs_schedules', runs)
             if not complete:
                 ctx.count('dfs_truncated')
-            nr = (150 if ctx.quick else 4000)
+            nr = (30 if ctx.quick else 4000)
             nr = nr // ctx.nshards + (1 if ctx.shard < nr % ctx.nshards else 0)
             S.explore_random(make, tg, nr, ctx.rng, on_run)
             ctx.count('random_schedules', nr)
